@@ -96,7 +96,22 @@ def _check_member(run_dir, r, collecting, want_lines, want_unmatched, out):
             out.append(f"{ident}: data.csv != collected lines")
         if want_unmatched is not None and _csv(os.path.join(d, "unmatched.csv")) != [RECORDS[i] for i in want_unmatched]:
             out.append(f"{ident}: unmatched.csv != unmatched lines")
+    meta = json.loads(_read(os.path.join(d, "meta.json")))
+    rt = meta.get("runtime_data") or {}
+    cp = r.csvpath
+    for key, val in (("count_matches", cp.match_count), ("count_scans", cp.scan_count), ("line_number", cp.line_monitor.physical_line_number),
+                     ("count_lines", cp.line_monitor.data_line_count), ("valid", cp.is_valid), ("stopped", cp.stopped), ("identity", ident), ("headers", list(cp.headers))):
+        if rt.get(key) != val:
+            out.append(f"{ident}: meta.json runtime_data[{key}] is {rt.get(key)!r}, the run ended with {val!r}")
+    if meta.get("identity") != ident or (meta.get("metadata") or {}).get("id") != ident:
+        out.append(f"{ident}: meta.json identity/metadata do not name the member")
+    if collecting and want_unmatched is not None and rt.get("lines_collected") != len(want_lines):
+        out.append(f"{ident}: meta.json lines_collected is {rt.get('lines_collected')}, collected {len(want_lines)}")
     man = json.loads(_read(os.path.join(d, "manifest.json")))
+    if man.get("instance_identity") != ident or man.get("instance_home") != d or man.get("run_home") != run_dir:
+        out.append(f"{ident}: manifest instance_identity/instance_home/run_home wrong")
+    if man.get("file_count") != len([f for f in os.listdir(d) if f != "manifest.json"]):
+        out.append(f"{ident}: manifest file_count {man.get('file_count')} != files on disk")
     if man.get("valid") != r.csvpath.is_valid:
         out.append(f"{ident}: manifest valid != is_valid")
     if man.get("completed") != r.csvpath.completed:
